@@ -387,7 +387,7 @@ pub fn run_c07(ctx: &mut Ctx) {
     let specs = by_family(Family::Groestl);
     let mut cases = Vec::new();
     // the 2^16-block messages (4-8 MiB each through the reference) only in the full-scale thorough worker
-    let small = ctx.tier == crate::engine::Tier::Quick || ctx.scale < 0.9;
+    let small = ctx.tier == crate::engine::Tier::Quick || !ctx.primary;
     let counts: &[usize] = if small { &[255, 256, 257] } else { &[255, 256, 257, 65_535, 65_536, 65_537] };
     for spec in &specs {
         for &nb in counts {
@@ -397,7 +397,7 @@ pub fn run_c07(ctx: &mut Ctx) {
             }
         }
     }
-    if ctx.tier == crate::engine::Tier::Quick && ctx.scale >= 0.9 {
+    if ctx.tier == crate::engine::Tier::Quick && ctx.primary {
         // one real crossing of the third counter byte per run (4 MiB resp. 8 MiB), variant rotating with the seed
         let spec = &specs[(ctx.seed % 4) as usize];
         for (nb, extra) in [(65_536usize, 5usize), (65_537, spec.block - 8)] {
